@@ -77,8 +77,8 @@ loop:
 				run.Count("b-op:" + w[0])
 				run.Count("b-reply:" + strings.Fields(reply)[0])
 			}
-			if hung {
-				fail("operation on the mirrored pair did not return", d(""))
+			if hung || (isErr && cerr.code == codes.DeadlineExceeded) {
+				fail(whatBlocked, d("-> %s", reply))
 				break loop
 			}
 			if panicked != "" {
@@ -259,7 +259,7 @@ func genB(r *hx.Rand) []string {
 func driveB(run *hx.Run, model *hx.Model, u *universe) {
 	n := run.Scale(1500, 12000)
 	known := map[string]int{}
-	for i := 0; i < n; i++ {
+	for i := 0; i < n && !enough(run); i++ {
 		r := hx.NewRand(run.Seed, "C11b", i)
 		o := handleB(run, model, u, fmt.Sprintf("seed%d/b%d", run.Seed, i), genB(r), known)
 		if o.what == whatD1 || o.what == whatQ {
@@ -276,6 +276,9 @@ func driveB(run *hx.Run, model *hx.Model, u *universe) {
 				for _, sectors := range []int{6, 9} {
 					for fill := 1; fill <= 12; fill++ {
 						for _, side := range []string{"A", "B"} {
+							if enough(run) {
+								break
+							}
 							script := []string{fmt.Sprintf("#cfg b %s %s %d 1 %d 1 %d", kind, kind, old, nw, sectors),
 								"place 1 " + side, fmt.Sprintf("fill %s %d", side, fill), "get 1", "get 1", "fm 1 2"}
 							o := handleB(run, model, u, fmt.Sprintf("sweep/%d", count), script, known)
@@ -300,6 +303,11 @@ func handleB(run *hx.Run, model *hx.Model, u *universe, name string, script []st
 	o := runCaseB(run, model, u, name, script, true)
 	if o.what == "" && o.agree {
 		return o
+	}
+	if o.what != whatD1 && o.what != whatQ {
+		seenMu.Lock()
+		failing++
+		seenMu.Unlock()
 	}
 	if known[o.what] > 0 {
 		return o
